@@ -17,7 +17,7 @@ MUST_REJECT = {
     "false_reported_unknown_label": "C02", "false_reported_swap": "C02", "disc_reverse": "C02", "disc_dup": "C02",
     "disc_pad_oob_first": "C02", "disc_pad_oob_last": "C02", "disc_withhold": "C02", "reported_missing_entry": "C02",
     "comm_subst_shared": "C05", "reorder_shift_exploit": "C05", "comm_subst_independent": "C05", "inner_id_other": "C05", "omit_pred": "C05",
-    "eq_independent_nonces": "C09", "eq_copy_response": "C09", "eq_unequal_shared_nonce": "C09", "eq_one_side_disclosed": "C09",
+    "eq_independent_nonces": "C09", "eq_copy_response": "C09", "eq_unequal_shared_nonce": "C09", "eq_one_side_disclosed": "C09", "eq_disc_reverse_exploit": "C09",
     "withhold_consistent": "C02", "extra_consistent": "C02",
     "rev_other_element_shared": "C05", "rev_other_element_independent": "C05", "rev_tamper_sy": "C11",
     "venc_no_dec_part": "C10", "venc_subst_shared": "C10", "venc_subst_independent": "C10",
